@@ -154,7 +154,7 @@ def _vm_goal(case, out):
             script = []
             for _ in range(int(t.next())):
                 a = t.next()
-                script.append({"K": "AOk", "F": "AFail", "X": "AErr"}.get(a[0]) or
+                script.append({"K": "AOk", "F": "AFail", "X": "AErr", "Z": "AShareFail"}.get(a[0]) or
                               ("A401 %s" % _cstr(a[1:]) if a[0] == "U" else ("AShare %s" % a[1:] if a[0] == "S" else "ATok %s" % a[1:])))
             hist.append("(mkReq %s %s %s %s, [%s])" % (h, _clist(hh), _clist(gh), body, "; ".join(script)))
         exp = []
